@@ -1,8 +1,420 @@
+//! Object-history scenarios: explicit operation lists with cancellation points and a hash
+//! behaviour chosen by the simulator.
 use crate::kernel::json::J;
+use crate::kernel::rng::{Digest, Rng};
+use json_syntax::object::Key;
+use json_syntax::{NumberBuf, Object, Value};
+
+/// Serialisable value description (numbers keep their lexical form).
 #[derive(Clone, Debug, PartialEq)]
-pub struct HistSc {}
+pub enum V {
+    Null,
+    Bool(bool),
+    Num(String),
+    Str(String),
+    Arr(Vec<V>),
+    Obj(Vec<(String, V)>),
+}
+
+impl V {
+    pub fn build(&self) -> Value {
+        match self {
+            V::Null => Value::Null,
+            V::Bool(b) => Value::Boolean(*b),
+            V::Num(s) => Value::Number(NumberBuf::new(s.as_bytes().into()).expect("valid number in scenario")),
+            V::Str(s) => Value::String(s.as_str().into()),
+            V::Arr(a) => Value::Array(a.iter().map(V::build).collect()),
+            V::Obj(es) => {
+                // nested objects are built by plain pushes (their own histories are not the subject)
+                let mut o = Object::new();
+                for (k, v) in es { o.push(Key::from(k.as_str()), v.build()); }
+                Value::Object(o)
+            }
+        }
+    }
+    pub fn to_json(&self) -> J {
+        match self {
+            V::Null => J::Null,
+            V::Bool(b) => J::Bool(*b),
+            V::Num(s) => J::Obj(vec![("num".into(), J::Str(s.clone()))]),
+            V::Str(s) => J::Str(s.clone()),
+            V::Arr(a) => J::Arr(a.iter().map(V::to_json).collect()),
+            V::Obj(es) => J::Obj(vec![("obj".into(), J::Arr(es.iter().map(|(k, v)| J::Arr(vec![J::Str(k.clone()), v.to_json()])).collect()))]),
+        }
+    }
+    pub fn from_json(j: &J) -> Result<V, String> {
+        Ok(match j {
+            J::Null => V::Null,
+            J::Bool(b) => V::Bool(*b),
+            J::Str(s) => V::Str(s.clone()),
+            J::Arr(a) => V::Arr(a.iter().map(V::from_json).collect::<Result<_, _>>()?),
+            J::Obj(_) => {
+                if let Some(n) = j.get("num") { V::Num(n.as_str().ok_or("num")?.to_string()) }
+                else if let Some(es) = j.get("obj") { V::Obj(entries_from_json(es)?) }
+                else { return Err("value object".into()); }
+            }
+            _ => return Err("value".into()),
+        })
+    }
+    pub fn digest(&self, d: &mut Digest) {
+        match self {
+            V::Null => d.u8(0), V::Bool(b) => { d.u8(1); d.u8(*b as u8) } V::Num(s) => { d.u8(2); d.str(s) } V::Str(s) => { d.u8(3); d.str(s) }
+            V::Arr(a) => { d.u8(4); d.usize(a.len()); for x in a { x.digest(d) } }
+            V::Obj(es) => { d.u8(5); d.usize(es.len()); for (k, v) in es { d.str(k); v.digest(d) } }
+        }
+    }
+    pub fn is_simple(&self) -> bool { matches!(self, V::Null) }
+}
+
+pub fn entries_to_json(es: &[(String, V)]) -> J { J::Arr(es.iter().map(|(k, v)| J::Arr(vec![J::Str(k.clone()), v.to_json()])).collect()) }
+pub fn entries_from_json(j: &J) -> Result<Vec<(String, V)>, String> {
+    let mut out = vec![];
+    for e in j.as_arr().ok_or("entries")? {
+        let a = e.as_arr().ok_or("entry")?;
+        if a.len() != 2 { return Err("entry arity".into()); }
+        out.push((a[0].as_str().ok_or("key")?.to_string(), V::from_json(&a[1])?));
+    }
+    Ok(out)
+}
+
+/// What the consumer of a lazily-mutating removal iterator does with it.
+#[derive(Clone, Copy, Debug, PartialEq, Eq)]
+pub enum Then { Drop, Exhaust, Unwind }
+
+#[derive(Clone, Copy, Debug, PartialEq, Eq)]
+pub struct Cancel { pub pull: usize, pub then: Then }
+
+impl Cancel {
+    pub const EXHAUST: Cancel = Cancel { pull: 0, then: Then::Exhaust };
+    fn to_json(self) -> J { J::Obj(vec![("pull".into(), J::UInt(self.pull as u64)), ("then".into(), J::from(match self.then { Then::Drop => "drop", Then::Exhaust => "exhaust", Then::Unwind => "unwind" }))]) }
+    fn from_json(j: &J) -> Result<Cancel, String> {
+        Ok(Cancel { pull: j.get("pull").and_then(J::as_u64).ok_or("pull")? as usize, then: match j.get("then").and_then(J::as_str) { Some("drop") => Then::Drop, Some("exhaust") => Then::Exhaust, Some("unwind") => Then::Unwind, _ => return Err("then".into()) } })
+    }
+}
+
+/// How a key-based query names its key (all three must hash and compare alike).
+#[derive(Clone, Debug, PartialEq)]
+pub enum Op {
+    Push { r: usize, k: String, v: V },
+    PushEntry { r: usize, k: String, v: V },
+    PushFront { r: usize, k: String, v: V },
+    PushEntryFront { r: usize, k: String, v: V },
+    Insert { r: usize, k: String, v: V, c: Cancel },
+    InsertFront { r: usize, k: String, v: V, c: Cancel },
+    Remove { r: usize, k: String, c: Cancel },
+    RemoveAt { r: usize, i: usize },
+    RemoveUnique { r: usize, k: String },
+    Sort { r: usize },
+    FromVec { r: usize, es: Vec<(String, V)> },
+    FromIterEntries { r: usize, es: Vec<(String, V)> },
+    FromIterPairs { r: usize, es: Vec<(String, V)> },
+    ExtendEntries { r: usize, es: Vec<(String, V)> },
+    ExtendPairs { r: usize, es: Vec<(String, V)> },
+    /// extend register r with a clone of the entries of register s
+    ExtendFrom { r: usize, s: usize },
+    /// through `iter_mut()`, replace the value of entry `i` (if any)
+    IterMutSet { r: usize, i: usize, v: V },
+    /// `get_mut(k)`: pull `pull` values, overwrite each pulled one with `v`
+    GetMutSet { r: usize, k: String, pull: usize, v: V },
+    GetUniqueMutSet { r: usize, k: String, v: V },
+    GetOrInsertWith { r: usize, k: String, v: V },
+    GetMutOrInsertWith { r: usize, k: String, v: V, set: Option<V> },
+    CloneTo { r: usize, dst: usize },
+    IntoIterRebuild { r: usize },
+    Fresh { r: usize },
+}
+
+impl Op {
+    pub fn name(&self) -> &'static str {
+        match self {
+            Op::Push { .. } => "push", Op::PushEntry { .. } => "push_entry", Op::PushFront { .. } => "push_front", Op::PushEntryFront { .. } => "push_entry_front",
+            Op::Insert { .. } => "insert", Op::InsertFront { .. } => "insert_front", Op::Remove { .. } => "remove", Op::RemoveAt { .. } => "remove_at", Op::RemoveUnique { .. } => "remove_unique",
+            Op::Sort { .. } => "sort", Op::FromVec { .. } => "from_vec", Op::FromIterEntries { .. } => "from_iter_entries", Op::FromIterPairs { .. } => "from_iter_pairs",
+            Op::ExtendEntries { .. } => "extend_entries", Op::ExtendPairs { .. } => "extend_pairs", Op::ExtendFrom { .. } => "extend_from", Op::IterMutSet { .. } => "iter_mut_set",
+            Op::GetMutSet { .. } => "get_mut_set", Op::GetUniqueMutSet { .. } => "get_unique_mut_set", Op::GetOrInsertWith { .. } => "get_or_insert_with",
+            Op::GetMutOrInsertWith { .. } => "get_mut_or_insert_with", Op::CloneTo { .. } => "clone_to", Op::IntoIterRebuild { .. } => "into_iter_rebuild", Op::Fresh { .. } => "fresh",
+        }
+    }
+    pub const NAMES: [&'static str; 24] = ["push", "push_entry", "push_front", "push_entry_front", "insert", "insert_front", "remove", "remove_at", "remove_unique", "sort", "from_vec",
+        "from_iter_entries", "from_iter_pairs", "extend_entries", "extend_pairs", "extend_from", "iter_mut_set", "get_mut_set", "get_unique_mut_set", "get_or_insert_with",
+        "get_mut_or_insert_with", "clone_to", "into_iter_rebuild", "fresh"];
+    pub fn index(&self) -> usize { Op::NAMES.iter().position(|n| *n == self.name()).unwrap() }
+    pub fn reg(&self) -> usize {
+        match self {
+            Op::Push { r, .. } | Op::PushEntry { r, .. } | Op::PushFront { r, .. } | Op::PushEntryFront { r, .. } | Op::Insert { r, .. } | Op::InsertFront { r, .. } | Op::Remove { r, .. }
+            | Op::RemoveAt { r, .. } | Op::RemoveUnique { r, .. } | Op::Sort { r } | Op::FromVec { r, .. } | Op::FromIterEntries { r, .. } | Op::FromIterPairs { r, .. } | Op::ExtendEntries { r, .. }
+            | Op::ExtendPairs { r, .. } | Op::ExtendFrom { r, .. } | Op::IterMutSet { r, .. } | Op::GetMutSet { r, .. } | Op::GetUniqueMutSet { r, .. } | Op::GetOrInsertWith { r, .. }
+            | Op::GetMutOrInsertWith { r, .. } | Op::CloneTo { r, .. } | Op::IntoIterRebuild { r } | Op::Fresh { r } => *r,
+        }
+    }
+    pub fn key(&self) -> Option<&str> {
+        match self {
+            Op::Push { k, .. } | Op::PushEntry { k, .. } | Op::PushFront { k, .. } | Op::PushEntryFront { k, .. } | Op::Insert { k, .. } | Op::InsertFront { k, .. } | Op::Remove { k, .. }
+            | Op::RemoveUnique { k, .. } | Op::GetMutSet { k, .. } | Op::GetUniqueMutSet { k, .. } | Op::GetOrInsertWith { k, .. } | Op::GetMutOrInsertWith { k, .. } => Some(k),
+            _ => None,
+        }
+    }
+    pub fn entries(&self) -> Option<&Vec<(String, V)>> {
+        match self { Op::FromVec { es, .. } | Op::FromIterEntries { es, .. } | Op::FromIterPairs { es, .. } | Op::ExtendEntries { es, .. } | Op::ExtendPairs { es, .. } => Some(es), _ => None }
+    }
+    pub fn cancel(&self) -> Option<Cancel> { match self { Op::Insert { c, .. } | Op::InsertFront { c, .. } | Op::Remove { c, .. } => Some(*c), _ => None } }
+
+    pub fn to_json(&self) -> J {
+        let mut o: Vec<(String, J)> = vec![("op".into(), J::from(self.name())), ("r".into(), J::UInt(self.reg() as u64))];
+        if let Some(k) = self.key() { o.push(("key".into(), J::Str(k.to_string()))); }
+        match self {
+            Op::Push { v, .. } | Op::PushEntry { v, .. } | Op::PushFront { v, .. } | Op::PushEntryFront { v, .. } | Op::Insert { v, .. } | Op::InsertFront { v, .. } | Op::IterMutSet { v, .. }
+            | Op::GetMutSet { v, .. } | Op::GetUniqueMutSet { v, .. } | Op::GetOrInsertWith { v, .. } | Op::GetMutOrInsertWith { v, .. } => o.push(("value".into(), v.to_json())),
+            _ => {}
+        }
+        if let Some(c) = self.cancel() { o.push(("cancel".into(), c.to_json())); }
+        if let Some(es) = self.entries() { o.push(("entries".into(), entries_to_json(es))); }
+        match self {
+            Op::RemoveAt { i, .. } | Op::IterMutSet { i, .. } => o.push(("index".into(), J::UInt(*i as u64))),
+            Op::GetMutSet { pull, .. } => o.push(("pull".into(), J::UInt(*pull as u64))),
+            Op::ExtendFrom { s, .. } => o.push(("src".into(), J::UInt(*s as u64))),
+            Op::CloneTo { dst, .. } => o.push(("dst".into(), J::UInt(*dst as u64))),
+            Op::GetMutOrInsertWith { set, .. } => o.push(("set".into(), set.as_ref().map(V::to_json).map(|j| J::Arr(vec![j])).unwrap_or(J::Arr(vec![])))),
+            _ => {}
+        }
+        J::Obj(o)
+    }
+
+    pub fn from_json(j: &J) -> Result<Op, String> {
+        let name = j.get("op").and_then(J::as_str).ok_or("op")?;
+        let r = j.get("r").and_then(J::as_u64).ok_or("r")? as usize;
+        let k = || j.get("key").and_then(J::as_str).map(String::from).ok_or_else(|| "key".to_string());
+        let v = || j.get("value").ok_or_else(|| "value".to_string()).and_then(V::from_json);
+        let c = || j.get("cancel").ok_or_else(|| "cancel".to_string()).and_then(Cancel::from_json);
+        let es = || j.get("entries").ok_or_else(|| "entries".to_string()).and_then(entries_from_json);
+        let u = |n: &str| j.get(n).and_then(J::as_u64).map(|x| x as usize).ok_or_else(|| n.to_string());
+        Ok(match name {
+            "push" => Op::Push { r, k: k()?, v: v()? }, "push_entry" => Op::PushEntry { r, k: k()?, v: v()? },
+            "push_front" => Op::PushFront { r, k: k()?, v: v()? }, "push_entry_front" => Op::PushEntryFront { r, k: k()?, v: v()? },
+            "insert" => Op::Insert { r, k: k()?, v: v()?, c: c()? }, "insert_front" => Op::InsertFront { r, k: k()?, v: v()?, c: c()? },
+            "remove" => Op::Remove { r, k: k()?, c: c()? }, "remove_at" => Op::RemoveAt { r, i: u("index")? }, "remove_unique" => Op::RemoveUnique { r, k: k()? },
+            "sort" => Op::Sort { r }, "from_vec" => Op::FromVec { r, es: es()? }, "from_iter_entries" => Op::FromIterEntries { r, es: es()? }, "from_iter_pairs" => Op::FromIterPairs { r, es: es()? },
+            "extend_entries" => Op::ExtendEntries { r, es: es()? }, "extend_pairs" => Op::ExtendPairs { r, es: es()? }, "extend_from" => Op::ExtendFrom { r, s: u("src")? },
+            "iter_mut_set" => Op::IterMutSet { r, i: u("index")?, v: v()? }, "get_mut_set" => Op::GetMutSet { r, k: k()?, pull: u("pull")?, v: v()? },
+            "get_unique_mut_set" => Op::GetUniqueMutSet { r, k: k()?, v: v()? }, "get_or_insert_with" => Op::GetOrInsertWith { r, k: k()?, v: v()? },
+            "get_mut_or_insert_with" => Op::GetMutOrInsertWith { r, k: k()?, v: v()?, set: match j.get("set").and_then(J::as_arr) { Some([x]) => Some(V::from_json(x)?), _ => None } },
+            "clone_to" => Op::CloneTo { r, dst: u("dst")? }, "into_iter_rebuild" => Op::IntoIterRebuild { r }, "fresh" => Op::Fresh { r },
+            x => return Err(format!("unknown op {}", x)),
+        })
+    }
+
+    pub fn digest(&self, d: &mut Digest) {
+        d.u8(self.index() as u8); d.usize(self.reg());
+        if let Some(k) = self.key() { d.str(k); }
+        match self {
+            Op::Push { v, .. } | Op::PushEntry { v, .. } | Op::PushFront { v, .. } | Op::PushEntryFront { v, .. } | Op::Insert { v, .. } | Op::InsertFront { v, .. } | Op::IterMutSet { v, .. }
+            | Op::GetMutSet { v, .. } | Op::GetUniqueMutSet { v, .. } | Op::GetOrInsertWith { v, .. } | Op::GetMutOrInsertWith { v, .. } => v.digest(d),
+            _ => {}
+        }
+        if let Some(c) = self.cancel() { d.usize(c.pull); d.u8(c.then as u8); }
+        if let Some(es) = self.entries() { d.usize(es.len()); for (k, v) in es { d.str(k); v.digest(d); } }
+        match self { Op::RemoveAt { i, .. } | Op::IterMutSet { i, .. } => d.usize(*i), Op::GetMutSet { pull, .. } => d.usize(*pull), Op::ExtendFrom { s, .. } => d.usize(*s), Op::CloneTo { dst, .. } => d.usize(*dst),
+            Op::GetMutOrInsertWith { set, .. } => if let Some(s) = set { s.digest(d) }, _ => {} }
+    }
+}
+
+pub const HASH_MODES: [&str; 7] = ["good", "collide", "lowbits1", "lowbits2", "lowbits3", "sametag", "sameslot"];
+
+pub const REGISTERS: usize = 3;
+
+#[derive(Clone, Debug, PartialEq)]
+pub struct HistSc {
+    /// one of HASH_MODES
+    pub hash_mode: String,
+    pub hash_seed: u64,
+    pub ops: Vec<Op>,
+    /// C14 only: seed of the twin-construction choices and the steps after which twins are compared
+    pub twin_seed: u64,
+    pub checkpoints: Vec<usize>,
+}
+
 impl HistSc {
-    pub fn to_json(&self) -> J { J::Null }
-    pub fn from_json(_j: &J) -> Result<HistSc, String> { Err("todo".into()) }
-    pub fn size(&self) -> usize { 0 }
+    pub fn to_json(&self) -> J {
+        J::Obj(vec![
+            ("hash_mode".into(), J::from(self.hash_mode.as_str())), ("hash_seed".into(), J::UInt(self.hash_seed)), ("registers".into(), J::UInt(REGISTERS as u64)),
+            ("twin_seed".into(), J::UInt(self.twin_seed)), ("checkpoints".into(), J::Arr(self.checkpoints.iter().map(|c| J::UInt(*c as u64)).collect())),
+            ("ops".into(), J::Arr(self.ops.iter().map(Op::to_json).collect())),
+        ])
+    }
+    pub fn from_json(j: &J) -> Result<HistSc, String> {
+        let ops = j.get("ops").and_then(J::as_arr).ok_or("ops")?.iter().map(Op::from_json).collect::<Result<Vec<_>, _>>()?;
+        for o in &ops { if o.reg() >= REGISTERS { return Err("register out of range".into()); } }
+        Ok(HistSc {
+            hash_mode: j.get("hash_mode").and_then(J::as_str).ok_or("hash_mode")?.to_string(),
+            hash_seed: j.get("hash_seed").and_then(J::as_u64).ok_or("hash_seed")?,
+            twin_seed: j.get("twin_seed").and_then(J::as_u64).unwrap_or(0),
+            checkpoints: j.get("checkpoints").and_then(J::as_arr).map(|a| a.iter().filter_map(J::as_u64).map(|x| x as usize).collect()).unwrap_or_default(),
+            ops,
+        })
+    }
+    pub fn size(&self) -> usize { self.ops.len() }
+    pub fn digest(&self) -> u64 {
+        let mut d = Digest::default();
+        d.str(&self.hash_mode); d.u64(self.hash_seed); d.u64(self.twin_seed);
+        for c in &self.checkpoints { d.usize(*c); }
+        for o in &self.ops { o.digest(&mut d); }
+        d.finish()
+    }
+    /// every key mentioned anywhere in the history, plus one key that never occurs
+    pub fn universe(&self) -> Vec<String> {
+        let mut ks: Vec<String> = vec![];
+        for o in &self.ops {
+            if let Some(k) = o.key() { ks.push(k.to_string()); }
+            if let Some(es) = o.entries() { for (k, _) in es { ks.push(k.clone()); } }
+        }
+        ks.sort(); ks.dedup();
+        ks.push("\u{1}never-a-key\u{1}".to_string());
+        ks
+    }
+}
+
+// ---------------------------------------------------------------------------------------------
+// generation
+// ---------------------------------------------------------------------------------------------
+
+const NUMS: [&str; 8] = ["0", "-0", "1", "1.0", "1e2", "10", "2", "-1.5E-3"];
+const STRS: [&str; 5] = ["", "a", "b", "a string that is longer than sixteen bytes", "é"];
+
+pub fn gen_v(rng: &mut Rng, depth: usize) -> V {
+    match rng.below(if depth == 0 { 12 } else { 9 }) {
+        0 | 1 => V::Null,
+        2 => V::Bool(rng.chance(1, 2)),
+        3..=5 => V::Num(rng.pick(&NUMS).to_string()),
+        6..=8 => V::Str(rng.pick(&STRS).to_string()),
+        9 | 10 => V::Arr((0..rng.below(3)).map(|_| gen_v(rng, depth + 1)).collect()),
+        _ => V::Obj((0..rng.below(4)).map(|_| (rng.pick(&["a", "b", "", "a"]).to_string(), gen_v(rng, depth + 1))).collect()),
+    }
+}
+
+pub fn gen_universe(rng: &mut Rng) -> Vec<String> {
+    let small = rng.chance(1, 2);
+    let n = if small { rng.urange(1, 3) } else { rng.urange(24, 48) };
+    let style = rng.below(4);
+    (0..n).map(|i| match (style, i) {
+        (_, 0) if rng.chance(1, 4) => String::new(),
+        (0, _) => format!("k{}", i),
+        (1, _) => format!("a-key-with-a-long-shared-prefix-{:03}", i), // spilled to the heap (> 16 bytes)
+        (2, _) => format!("é{}", i),
+        _ => if i % 2 == 0 { format!("{}", (b'a' + (i % 26) as u8) as char) } else { format!("exactly-16-bytes{}", i % 10).chars().take(16).collect::<String>() + &"x".repeat(i % 3) },
+    }).collect()
+}
+
+fn gen_entries(rng: &mut Rng, uni: &[String], max: usize) -> Vec<(String, V)> {
+    (0..rng.urange(0, max)).map(|_| (rng.pick(uni).clone(), gen_v(rng, 1))).collect()
+}
+
+fn gen_cancel(rng: &mut Rng) -> Cancel {
+    let then = match rng.below(10) { 0..=3 => Then::Drop, 4..=7 => Then::Exhaust, _ => Then::Unwind };
+    Cancel { pull: rng.usize_below(5), then }
+}
+
+/// Draw a history. `max_len` bounds the number of operations.
+pub fn gen_hist(rng: &mut Rng, max_len: usize) -> HistSc {
+    let uni = gen_universe(rng);
+    let hash_mode = if rng.chance(1, 2) { "good" } else { *rng.pick(&HASH_MODES) }.to_string();
+    let hash_seed = rng.next_u64();
+    // swarm: per-run operation weights, a random subset of operations disabled
+    let mut w: Vec<u32> = (0..Op::NAMES.len()).map(|_| if rng.chance(1, 4) { 0 } else { rng.range(1, 8) as u32 }).collect();
+    // keep the object growing on average: pushes stay enabled
+    w[0] = w[0].max(4);
+    w[23] = w[23].min(1); // `fresh` (reset) rarely
+    let len = if rng.chance(1, 10) { rng.urange(1, max_len) } else { rng.urange(1, max_len.min(24)) };
+    let regs = if rng.chance(1, 2) { 1 } else { REGISTERS };
+    let mut ops = Vec::with_capacity(len);
+    for _ in 0..len {
+        let r = rng.usize_below(regs);
+        let k = rng.pick(&uni).clone();
+        let op = match rng.weighted(&w) {
+            0 => Op::Push { r, k, v: gen_v(rng, 0) },
+            1 => Op::PushEntry { r, k, v: gen_v(rng, 0) },
+            2 => Op::PushFront { r, k, v: gen_v(rng, 0) },
+            3 => Op::PushEntryFront { r, k, v: gen_v(rng, 0) },
+            4 => Op::Insert { r, k, v: gen_v(rng, 0), c: gen_cancel(rng) },
+            5 => Op::InsertFront { r, k, v: gen_v(rng, 0), c: gen_cancel(rng) },
+            6 => Op::Remove { r, k, c: gen_cancel(rng) },
+            7 => Op::RemoveAt { r, i: rng.usize_below(12) },
+            8 => Op::RemoveUnique { r, k },
+            9 => Op::Sort { r },
+            10 => Op::FromVec { r, es: gen_entries(rng, &uni, 12) },
+            11 => Op::FromIterEntries { r, es: gen_entries(rng, &uni, 8) },
+            12 => Op::FromIterPairs { r, es: gen_entries(rng, &uni, 8) },
+            13 => Op::ExtendEntries { r, es: gen_entries(rng, &uni, 8) },
+            14 => Op::ExtendPairs { r, es: gen_entries(rng, &uni, 8) },
+            15 => Op::ExtendFrom { r, s: rng.usize_below(REGISTERS) },
+            16 => Op::IterMutSet { r, i: rng.usize_below(10), v: gen_v(rng, 0) },
+            17 => Op::GetMutSet { r, k, pull: rng.usize_below(4), v: gen_v(rng, 0) },
+            18 => Op::GetUniqueMutSet { r, k, v: gen_v(rng, 0) },
+            19 => Op::GetOrInsertWith { r, k, v: gen_v(rng, 0) },
+            20 => Op::GetMutOrInsertWith { r, k, v: gen_v(rng, 0), set: if rng.chance(1, 2) { Some(gen_v(rng, 0)) } else { None } },
+            21 => Op::CloneTo { r, dst: rng.usize_below(REGISTERS) },
+            22 => Op::IntoIterRebuild { r },
+            _ => Op::Fresh { r },
+        };
+        ops.push(op);
+    }
+    let n = ops.len();
+    let mut checkpoints: Vec<usize> = (0..rng.below(3)).map(|_| rng.usize_below(n)).collect();
+    checkpoints.push(n - 1);
+    checkpoints.sort(); checkpoints.dedup();
+    HistSc { hash_mode, hash_seed, ops, twin_seed: rng.next_u64(), checkpoints }
+}
+
+/// Shrink candidates for histories.
+pub fn hist_shrink_candidates(sc: &HistSc) -> Vec<HistSc> {
+    let mut out = vec![];
+    for (a, b) in crate::kernel::shrink::removal_ranges(sc.ops.len()) {
+        let mut ops = sc.ops.clone(); ops.drain(a..b);
+        if ops.is_empty() { continue; }
+        let n = ops.len();
+        let mut cps: Vec<usize> = sc.checkpoints.iter().map(|c| if *c >= b { c - (b - a) } else if *c >= a { a.saturating_sub(1) } else { *c }).map(|c| c.min(n - 1)).collect();
+        cps.sort(); cps.dedup();
+        out.push(HistSc { ops, checkpoints: cps, ..sc.clone() });
+    }
+    if sc.hash_mode != "good" { out.push(HistSc { hash_mode: "good".into(), ..sc.clone() }); }
+    if sc.checkpoints.len() > 1 { out.push(HistSc { checkpoints: vec![*sc.checkpoints.last().unwrap()], ..sc.clone() }); }
+    for (i, op) in sc.ops.iter().enumerate() {
+        // tamer cancellation
+        if let Some(c) = op.cancel() {
+            if c != Cancel::EXHAUST {
+                let mut ops = sc.ops.clone();
+                match &mut ops[i] { Op::Insert { c, .. } | Op::InsertFront { c, .. } | Op::Remove { c, .. } => *c = Cancel::EXHAUST, _ => {} }
+                out.push(HistSc { ops, ..sc.clone() });
+            }
+        }
+        // null values
+        let mut ops = sc.ops.clone();
+        let mut changed = false;
+        match &mut ops[i] {
+            Op::Push { v, .. } | Op::PushEntry { v, .. } | Op::PushFront { v, .. } | Op::PushEntryFront { v, .. } | Op::Insert { v, .. } | Op::InsertFront { v, .. } | Op::IterMutSet { v, .. }
+            | Op::GetUniqueMutSet { v, .. } | Op::GetOrInsertWith { v, .. } => { if !v.is_simple() { *v = V::Null; changed = true; } }
+            Op::FromVec { es, .. } | Op::FromIterEntries { es, .. } | Op::FromIterPairs { es, .. } | Op::ExtendEntries { es, .. } | Op::ExtendPairs { es, .. } => {
+                if es.len() > 1 { es.pop(); changed = true; } else if es.iter().any(|e| !e.1.is_simple()) { for e in es.iter_mut() { e.1 = V::Null; } changed = true; }
+            }
+            _ => {}
+        }
+        if changed { out.push(HistSc { ops, ..sc.clone() }); }
+    }
+    // shorter key names: rename the i-th distinct key to a short one
+    let uni = sc.universe();
+    let uni = &uni[..uni.len() - 1];
+    if uni.iter().any(|k| k.len() > 2) {
+        let rename = |k: &str| -> String { match uni.iter().position(|u| u == k) { Some(i) => format!("{}", (b'a' + (i % 26) as u8) as char) + &if i >= 26 { (i / 26).to_string() } else { String::new() }, None => k.to_string() } };
+        let mut ops = sc.ops.clone();
+        for op in ops.iter_mut() {
+            match op {
+                Op::Push { k, .. } | Op::PushEntry { k, .. } | Op::PushFront { k, .. } | Op::PushEntryFront { k, .. } | Op::Insert { k, .. } | Op::InsertFront { k, .. } | Op::Remove { k, .. }
+                | Op::RemoveUnique { k, .. } | Op::GetMutSet { k, .. } | Op::GetUniqueMutSet { k, .. } | Op::GetOrInsertWith { k, .. } | Op::GetMutOrInsertWith { k, .. } => *k = rename(k),
+                Op::FromVec { es, .. } | Op::FromIterEntries { es, .. } | Op::FromIterPairs { es, .. } | Op::ExtendEntries { es, .. } | Op::ExtendPairs { es, .. } => for e in es.iter_mut() { e.0 = rename(&e.0) },
+                _ => {}
+            }
+        }
+        out.push(HistSc { ops, ..sc.clone() });
+    }
+    out.retain(|c| c != sc);
+    out
 }
